@@ -41,6 +41,7 @@ type c20Tunnel struct {
 	Strategy string   `json:"strategy"`
 	Chain    string   `json:"chain"` // letters: L logging, S size_limit, G gzip, H headers, R request-id
 	GzipHS   bool     `json:"gzip_handshake"`
+	HSForm   int      `json:"handshake_form,omitempty"` // 0 "Connection: Upgrade", 1 "keep-alive, Upgrade" (as Firefox sends), 2 lower-case tokens
 	Handler  int      `json:"handler_timeout"`
 	Pool     bool     `json:"ws_pool"`
 	Script   wsScript `json:"script"`
@@ -160,6 +161,32 @@ func c20Chain(spec string) config.PluginsConfig {
 	return pc
 }
 
+// respellConn rewrites the handshake's Connection / Upgrade header values in the first write.
+type respellConn struct {
+	net.Conn
+	form int
+	done bool
+}
+
+func (r *respellConn) Write(p []byte) (int, error) {
+	if r.done {
+		return r.Conn.Write(p)
+	}
+	r.done = true
+	h := string(p)
+	switch r.form {
+	case 1:
+		h = strings.Replace(h, "Connection: Upgrade\r\n", "Connection: keep-alive, Upgrade\r\n", 1)
+	case 2:
+		h = strings.Replace(h, "Connection: Upgrade\r\n", "Connection: upgrade\r\n", 1)
+		h = strings.Replace(h, "Upgrade: websocket\r\n", "Upgrade: WebSocket\r\n", 1)
+	}
+	if _, err := r.Conn.Write([]byte(h)); err != nil {
+		return 0, err
+	}
+	return len(p), nil
+}
+
 func c20RunTunnel(e *vh.Env, c c20Tunnel, o *vh.Out) {
 	log := &wsServerLog{got: map[string][]wsMsg{}, closedAt: map[string]int64{}, err: map[string]string{}}
 	scripts := &sync.Map{}
@@ -183,13 +210,23 @@ func c20RunTunnel(e *vh.Env, c c20Tunnel, o *vh.Out) {
 	defer sys.Close()
 	sc := c.Script
 	scripts.Store(sc.ID, sc)
-	ctx := fmt.Sprintf("%s chain=%q gzip-handshake=%v handler-timeout=%d pool=%v script=%s", c.Strategy, c.Chain, c.GzipHS, c.Handler, c.Pool, vh.J(sc))
+	ctx := fmt.Sprintf("%s chain=%q gzip-handshake=%v handshake-form=%d handler-timeout=%d pool=%v script=%s", c.Strategy, c.Chain, c.GzipHS, c.HSForm, c.Handler, c.Pool, vh.J(sc))
 	sigc := fmt.Sprintf("chain=%s|handler=%d", c.Chain, c.Handler)
 	hdr := http.Header{}
 	if c.GzipHS {
 		hdr.Set("Accept-Encoding", "gzip")
 	}
 	d := websocket.Dialer{HandshakeTimeout: 30 * time.Second}
+	if c.HSForm != 0 {
+		// the dialer insists on its own Connection header: respell it on the wire
+		d.NetDial = func(network, addr string) (net.Conn, error) {
+			nc, err := net.Dial(network, addr)
+			if err != nil {
+				return nil, err
+			}
+			return &respellConn{Conn: nc, form: c.HSForm}, nil
+		}
+	}
 	conn, resp, err := d.Dial("ws://"+sys.Addr+"/ws/echo?id="+sc.ID, hdr)
 	if err != nil {
 		st := 0
@@ -591,7 +628,7 @@ func init() {
 							handler = 2
 							sc.PauseMs = 5000 // the session outlives every request-scoped timeout
 						}
-						cs = append(cs, c20Tunnel{Strategy: allStrategies[n%5], Chain: ch, GzipHS: gz, Handler: handler, Pool: n%3 == 0, Script: sc})
+						cs = append(cs, c20Tunnel{Strategy: allStrategies[n%5], Chain: ch, GzipHS: gz, HSForm: (n / 2) % 3, Handler: handler, Pool: n%3 == 0, Script: sc})
 						n++
 					}
 				}
@@ -601,7 +638,7 @@ func init() {
 		func(e *vh.Env, c c20Tunnel, o *vh.Out) {
 			o.Need("sessions", "sessions_exact", "messages_relayed")
 			c20RunTunnel(e, c, o)
-			o.Distinct(fmt.Sprintf("%s|%v|%d|%v", c.Chain, c.GzipHS, c.Handler, c.Script))
+			o.Distinct(fmt.Sprintf("%s|%v|%d|%d|%v", c.Chain, c.GzipHS, c.HSForm, c.Handler, c.Script))
 			if c.Chain == "LSGH" && c.GzipHS && c.Handler == 0 {
 				o.Sample(map[string]any{"part": "tunnel", "case": c})
 			}
